@@ -3,14 +3,14 @@ from vlib.core import Query
 SHIMS = ["uatomic_seq.h", "upool_depth0.h"]
 UW = ["mdl_insert.0:34", "mdl_insert.1:34", "mdl_delete.0:34", "mdl_slice.0:34", "mutate.0:34",
       "urefcount_release:3", "ubuf_block_mem_free:3", "ubuf_free:3", "ubuf_dup:3"]
-KINDS = ["append", "insert", "delete", "truncate", "resize", "prepend", "splice", "split", "merge", "copy", "dup"]
+KINDS = ["append", "insert", "delete", "truncate", "resize", "prepend", "splice", "split", "merge", "copy", "dup", "append_segmented"]
 ACC = ["size_linear", "read", "peek", "extract", "iovec", "scan", "find", "compare", "equal", "match"]
 
 CLAIM = {
     "text": "Bounded model checking of the real ubuf_block.h / ubuf_block_common.h / ubuf_block_mem.c against a byte-string model. "
             "(1) Mutators: from every listed concrete block shape (initial segmentations incl. empty segments, optionally transformed by "
             "a prefix of 1-2 real operations with concrete arguments: sliced segments, moved head, cached end pointer, emptied block...) "
-            "ONE operation of each of the 11 kinds with SYMBOLIC int arguments in [-24,24] (negative offsets, -1 sizes, boundary and "
+            "ONE operation of each of the 12 kinds with SYMBOLIC int arguments in [-24,24] (negative offsets, -1 sizes, boundary and "
             "out-of-range values) and symbolic payload bytes: in-range forms must succeed, out-of-range forms must be refused, whatever "
             "returns an error leaves size and content unchanged, and after the operation the size equals the model's and two symbolic "
             "one-octet reads (the second on the offset cache left by the first) return the model's bytes; blocks returned by "
@@ -59,7 +59,7 @@ def build(tier):
     for sg in segs1:
         total = sum(sg)
         for pre in ((3,) if quick else (0, 3)):
-            for op in range(11):
+            for op in range(12):
                 if op == 6:         # splice: arguments enumerated (all pairs around the block)
                     if quick and sg != segs1[0]:
                         continue
@@ -80,7 +80,7 @@ def build(tier):
             for pname, ptr in PREFIXES:
                 if quick and pname not in QUICK_PREFIXES:
                     continue
-                for op in range(11):
+                for op in range(12):
                     pdef = "PREFIX=" + ",".join(map(str, ptr))
                     if op == 6:
                         for (off, size) in ((0, -1), (1, 1), (-1, -1), (1, -1), (0, sum(sg) + 3)):
